@@ -63,7 +63,7 @@ Definition addr_ok (purpose : Z) (net : bool) (secc : bytes) (a : option str) : 
   if purpose =? 44 then beq_res beq_bytes (b58dec a) (Ok (p2pkh_payload h160 secc net))
   else if purpose =? 49 then beq_res beq_bytes (b58dec a) (Ok (p2sh_p2wpkh_payload h160 secc net))
   else match a with
-       | Some s => match Bech32M.decode (segwit_hrp net) s with
+       | Some s => match Spec.Bech32.spec_decode (segwit_hrp net) s with
                    | Some (v, p) => (v =? 0) && beq_bytes p (h160 secc) | None => false end
        | None => false end.
 
@@ -331,7 +331,7 @@ Definition check_case (c : case) : Z :=
                          (match b58dec o (Some a1) with Ok (v :: _) => v =? (if net then 111 else 0) | _ => false end)
                          && (match b58dec o (Some a3) with Ok (v :: _) => v =? (if net then 196 else 5) | _ => false end)
                          && (match b58dec o (Some a5) with Ok (v :: _) => v =? (if net then 196 else 5) | _ => false end)
-                         && is_some (Bech32M.decode (segwit_hrp net) a2) && is_some (Bech32M.decode (segwit_hrp net) a4)
+                         && is_some (Spec.Bech32.spec_decode (segwit_hrp net) a2) && is_some (Spec.Bech32.spec_decode (segwit_hrp net) a4)
                      | _ => false end)
              | Err, _ => true
              | Ok _, Err => false
